@@ -219,7 +219,7 @@ fn emit_hist(sink: &mut Sink, ops: &str, tag: &str) {
 fn emit_eqh(sink: &mut Sink, o1: &str, o2: &str, tag: &str) {
     let (m1, _, _) = run_hist(o1); let (m2, _, _) = run_hist(o2);
     let e = m1 == m2;
-    if e != (m2 == m1) { sink.case("mapeqh", &[cfg_tag(), o1, o2], "?asymmetric", tag, true); return; }
+    if e != (m2 == m1) { sink.case("mapeqh", &[cfg_tag(), o1, o2], &format!("?asymmetric:{}:{}", tf(e), tf(!e)), &format!("{}:asymmetric", tag), true); return; }
     let h = siphash(&m1) == siphash(&m2) && hasher_input(&m1) == hasher_input(&m2);
     let same_order = enc(&Value::Object(m1.clone())) == enc(&Value::Object(m2.clone()));
     sink.case("mapeqh", &[cfg_tag(), o1, o2], &format!("{}/{}", tf(e), tf(h)),
@@ -228,7 +228,7 @@ fn emit_eqh(sink: &mut Sink, o1: &str, o2: &str, tag: &str) {
 fn emit_value_pair(sink: &mut Sink, a: &Value, b: &Value, tag: &str) {
     let e = a == b;
     let (ea, eb) = (enc(a), enc(b));
-    if e != (b == a) { sink.case("mapeq", &[cfg_tag(), &ea, &eb], "?asymmetric", tag, true); return; }
+    if e != (b == a) { sink.case("mapeq", &[cfg_tag(), &ea, &eb], &format!("?asymmetric:{}:{}", tf(e), tf(!e)), &format!("{}:asymmetric", tag), true); return; }
     let obs = format!("{}/{}/{}", tf(e), tf(siphash(a) == siphash(b)), tf(hasher_input(a) == hasher_input(b)));
     sink.case("mapeq", &[cfg_tag(), &ea, &eb], &obs, &format!("{}:{}", tag, if e { if ea == eb { "eq-identical" } else { "eq-differently-written" } } else { "ne" }), ea != eb);
 }
@@ -498,6 +498,78 @@ fn gen_numbery(r: &mut Rng, depth: usize) -> Value {
     else { let mut m = Map::new(); for _ in 0..r.below(4) { m.insert(gen_string(r), gen_numbery(r, depth - 1)); } Value::Object(m) }
 }
 
+/// a removal of key `k` (hex) in every spelling the build has: remove / remove_entry, through the map or an occupied entry,
+/// swap_remove / shift_remove under preserve_order, retain
+fn rand_removal(r: &mut Rng, k: &str) -> String {
+    match r.below(if PO { 6 } else { 3 }) {
+        0 => format!("rt:x:{}", k),
+        1 | 2 => format!("rm:p{}{}:{}", *r.pick(&['v', 'e']), *r.pick(&['m', 'o']), k),
+        _ => format!("rm:{}{}{}:{}", *r.pick(&['w', 'h']), *r.pick(&['v', 'e']), *r.pick(&['m', 'o']), k),
+    }
+}
+/// `inner` wrapped in arrays / objects (`Value::eq` reaches `Map::eq` through every level)
+fn wrap(inner: Value, shape: usize) -> Value {
+    match shape {
+        0 => inner,
+        1 => Value::Array(vec![inner]),
+        2 => { let mut m = Map::new(); m.insert("k".into(), inner); Value::Object(m) }
+        3 => { let mut m = Map::new(); m.insert("x".into(), Value::Array(vec![Value::Null, inner])); Value::Array(vec![Value::from(1u64), Value::Object(m)]) }
+        _ => { let mut m = Map::new(); m.insert("a".into(), Value::from(1u64)); m.insert("m".into(), inner); m.insert("z".into(), Value::Bool(true));
+               let mut o = Map::new(); o.insert("o".into(), Value::Object(m)); Value::Object(o) }
+    }
+}
+/// 6. strict subsets / supersets: a map against itself minus one or more keys (remove / remove_entry / swap_remove /
+/// shift_remove / retain / clear) and plus extra keys, in BOTH orders, as histories (op mapeqh) and as values at top level
+/// and nested inside arrays / objects (op mapeq). Equal values on the common keys, so only the key sets tell them apart.
+fn run_subsets(sink: &mut Sink, r: &mut Rng, thorough: bool) {
+    // fixed small cases first (small replays)
+    let one = format!("in:{}:n", KA);
+    let two = format!("in:{}:n,in:{}:i2;", KA, KB);
+    for (x, y) in [("-", one.as_str()), (one.as_str(), two.as_str()), ("-", two.as_str())] { emit_eqh(sink, x, y, "subset-fixed"); emit_eqh(sink, y, x, "superset-fixed"); }
+    let removed = format!("{},rm:pvm:{}", two, KB); let cleared = format!("{},cl", two); let retained = format!("{},rt:x:{}", two, KA);
+    for h in [&removed, &cleared, &retained] { emit_eqh(sink, h, &two, "subset-fixed"); emit_eqh(sink, &two, h, "superset-fixed"); }
+    for shape in 0..5 {
+        let mut big = Map::new(); big.insert("a".into(), Value::Null); big.insert("b".into(), Value::from(2u64));
+        let mut small = big.clone(); small.remove("b");
+        for (s, b) in [(Value::Object(small.clone()), Value::Object(big.clone())), (Value::Object(Map::new()), Value::Object(big.clone())), (Value::Object(Map::new()), Value::Object(small.clone()))] {
+            emit_value_pair(sink, &wrap(s.clone(), shape), &wrap(b.clone(), shape), "subset-fixed");
+            emit_value_pair(sink, &wrap(b, shape), &wrap(s, shape), "superset-fixed");
+        }
+    }
+    for i in 0..(if thorough { 6000 } else { 600 }) {
+        let pool = key_pool(r);
+        // base: 1..7 distinct keys inserted in pool order (shuffled), nested values
+        let n = 1 + r.below(pool.len().min(7));
+        let base: Vec<(String, Value)> = pool.iter().take(n).map(|k| (k.clone(), gen_value(r, 2))).collect();
+        let h1: Vec<String> = base.iter().map(|(k, v)| format!("in:{}:{}", hexf(k.as_bytes()), enc(v))).collect();
+        // smaller side: the same history followed by removals of 1..n keys / retain / clear
+        let mut h2 = h1.clone();
+        let tag;
+        match r.below(8) {
+            0 => { h2.push("cl".into()); tag = "clear"; }
+            1 => { let k = hexf(base[r.below(n)].0.as_bytes()); h2.push(format!("rt:l:{}", k)); tag = "retain-below"; }
+            2 if n < pool.len() => {
+                // larger side instead: extra keys inserted / extended / appended
+                let extra: Vec<(String, Value)> = pool.iter().skip(n).take(1 + r.below(3)).map(|k| (k.clone(), gen_value(r, 1))).collect();
+                match r.below(3) { 0 => for (k, v) in &extra { h2.push(format!("in:{}:{}", hexf(k.as_bytes()), enc(v))); },
+                                   1 => h2.push(format!("ex:{}", enc_pairs(&extra))), _ => h2.push(format!("ap:{}", enc_pairs(&extra))) }
+                tag = "extra";
+            }
+            _ => { let cnt = 1 + r.below(n.min(3)); for _ in 0..cnt { let k = hexf(base[r.below(n)].0.as_bytes()); h2.push(rand_removal(r, &k)); } tag = "removed"; }
+        }
+        // the other side rebuilt in another insertion order (so that order and contents vary independently)
+        let mut h1s = h1.clone();
+        if r.chance(1, 2) { for i in (1..h1s.len()).rev() { let j = r.below(i + 1); h1s.swap(i, j); } }
+        let (a, b) = (h1s.join(","), h2.join(","));
+        emit_eqh(sink, &a, &b, &format!("subset-{}", tag)); emit_eqh(sink, &b, &a, &format!("subset-{}-rev", tag));
+        // the same two maps as values, at top level and nested
+        let (m1, _, _) = run_hist(&a); let (m2, _, _) = run_hist(&b);
+        let shape = i % 5;
+        emit_value_pair(sink, &wrap(Value::Object(m1.clone()), shape), &wrap(Value::Object(m2.clone()), shape), &format!("subset-{}-v{}", tag, shape));
+        emit_value_pair(sink, &wrap(Value::Object(m2), shape), &wrap(Value::Object(m1), shape), &format!("subset-{}-v{}-rev", tag, shape));
+    }
+}
+
 pub fn run(sink: &mut Sink, thorough: bool, seed: u64) {
     let mut r = Rng::new(seed);
     // 0. fixed corpus first (small cases make small replays): zeros of both signs, integer/float twins
@@ -578,4 +650,7 @@ pub fn run(sink: &mut Sink, thorough: bool, seed: u64) {
     // 5. the iterator wrappers from both ends (own generator state: the cases above stay what they were)
     let mut r2 = Rng::new(seed ^ 0x17e7_17e7);
     run_iter(sink, &mut r2, thorough);
+    // 6. strict subsets / supersets in both orders (own generator state)
+    let mut r3 = Rng::new(seed ^ 0x5b5e_7175);
+    run_subsets(sink, &mut r3, thorough);
 }
